@@ -636,7 +636,8 @@ def run(tier, seed):
            "observations_read": sum(r_["read"] for r_ in results.values()), "observations_reused_unchanged_storage": sum(r_["reused"] for r_ in results.values()),
            "model_drift": drift, "fidelity_notes": fidelity, "histories_not_explained": sum(1 for v in verdict.values() if v[1] != "ok"),
            "reassigning_existing_attribute_raises": probe_reassign(),
-           "wall": {"tlc_generate_s": round(t_gen, 1), "replay_s": round(t_exec, 1), "tlc_validate_s": round(t_val, 1), "py_workers": nproc}}
+           "wall": {"tlc_generate_s": round(t_gen, 1), "replay_s": round(t_exec, 1), "tlc_validate_s": round(t_val, 1), "py_workers": nproc,
+                    "cpu_s_including_children": round(sum(os.times()[:4]), 1)}}
     return CheckResult(coverage=cov, violations=viol, assumptions=[
         "at most one open handle per path at any time; attribute lists name attributes present in the source",
         "an attribute is assigned only where it is absent (re-assignment = del + assign; `d.a = v` on an existing attribute raises in this tree, "
